@@ -310,6 +310,13 @@ func runC06(c E1Case) (out core.Outcome) {
 		r.cls.Add("nosleep:grace-period-exhausted")
 		return
 	}
+	if c.Kind != "qblock" && cl.TaskPtr != nil && cl.TaskPtr.RunWall >= 900*time.Millisecond {
+		// the closer itself has spent the grace period of a bounded-wait channel in real time (a Close that waits on a
+		// timer or a signal instead of polling: nobody else runs while it does) — "the sender is stalled beyond the
+		// documented grace period" as far as this Close can tell; the statement exempts that
+		r.cls.Add("grace-period-spent-in-real-time")
+		return
+	}
 	if virtSlept() > 0 {
 		r.cls.Add("nosleep:close-waited")
 		if virtSlept() >= 300*time.Millisecond {
